@@ -30,6 +30,7 @@ EXPLANATION = (
     'Round 7: (INFER) the input count inferred by the converters, evaluated on sample paths, equals sum(len(step)) - steps + 1; (KEYS, shared with C02) no conversion memoised in a per-node entry. '
     'Round 8: (EMPTYOK) a path parameter is never used as a truth value to choose between alternatives; (DISPATCH, shared with C13) edge and linear paths are told apart per call. '
     "Round 8 (engine E9): (CONVERT) the three converters' source is evaluated on every bounded single-assignment path and on every index order of a set of small networks and checked against the id conventions (inverse pair, live carriers). "
+    'Round 9: (ONETENSOR) the one-tensor exit dominates the dispatch to the ordered traversal. '
 )
 ASSUMPTIONS = ("list.pop(i) shifts later positions down by one; bisect arithmetic is not decided",)
 
